@@ -63,6 +63,7 @@ class Ref:
         self.subs = set()
         self.sel = 'INBOX'
         self.ever = {}          # (box, uid) -> cid, for every uid ever acknowledged
+        self.reused = []        # acknowledged uids that were not above every uid acknowledged for that mailbox before
 
     def copy(self):
         r = Ref()
@@ -71,7 +72,13 @@ class Ref:
         r.subs = set(self.subs)
         r.sel = self.sel
         r.ever = dict(self.ever)
+        r.reused = list(self.reused)
         return r
+
+    def _ack(self, box, uid, cid):
+        before = [u for (b, u) in self.ever if b == box]
+        if before and uid <= max(before):
+            self.reused.append((box, uid, self.ever.get((box, uid)), cid, max(before)))
 
     def apply(self, line, reply):
         """apply one acknowledged command (reply is the server's; only OK replies change anything)"""
@@ -88,6 +95,7 @@ class Ref:
             uid = int(re.search(rb'\[APPENDUID \d+ (\d+)\]', tg[2]).group(1))
             cid = l3.cid_of_size(int(m.group(3)))
             fl = tuple(sorted(l3.RFLAGS[f.lower().encode()] for f in m.group(2).split() if f.lower().encode() in l3.RFLAGS and l3.RFLAGS[f.lower().encode()] < 5))
+            self._ack(box, uid, cid)
             self.boxes[box][uid] = (cid, fl)
             self.ever[(box, uid)] = cid
             return
@@ -125,6 +133,7 @@ class Ref:
                 for u, du in zip(uids(mm.group(1).decode()), uids(mm.group(2).decode())):
                     if u in self.boxes[self.sel]:
                         cid, fl = self.boxes[self.sel][u]
+                        self._ack(dest, du, cid)
                         self.boxes[dest][du] = (cid, fl)
                         self.ever[(dest, du)] = cid
                         if m.group(1) == 'MOVE':
@@ -235,6 +244,16 @@ def history_lines(r, kind):
                 lines.append(f'UID EXPUNGE {u}')
             else:
                 lines.append('CHECK')
+        return lines
+    if kind == 'newest':
+        # the newest message leaves the mailbox (moved away, or expunged and swept by CHECK) while older ones stay; what arrives next must not get its UID
+        lines = [app(), 'CREATE other', app(flags='\\Seen'), app()]
+        if r.random() < 0.5:
+            lines.append('UID MOVE 3 other')
+        else:
+            lines += ['UID STORE 3 +FLAGS (\\Deleted)', 'UID EXPUNGE 3', 'CHECK']
+        lines.append(r.choice([app(), 'SELECT other\r\nt UID COPY 1 INBOX'.split('\r\n')[0]]))
+        lines.append(app())
         return lines
     lines = [app(), 'CREATE other', app(flags='\\Seen'), app('other')]
     n = 2
@@ -357,7 +376,14 @@ def one_history(part, r, work, lines, layout, other_fs, kind):
             if '[SERVERBUG]' in x['reply']:
                 part.violation('monitor', f'internal error while running {lines[x["i"]][:60]!r}: {x["reply"][-120:]!r}', case, signature='history-serverbug')
                 return
-        # ---- model: trace kinds and recovered listing, for the histories MaildirFS models
+        # ---- no crash at all: every UID acknowledged for a mailbox is above every UID acknowledged for it before (no message is ever given a UID that
+        # named another one - whether or not that one is still there)
+        ref_full = Ref()
+        for x in full:
+            ref_full.apply(lines[x['i']], x['reply'])
+        for box, uid, was, now, high in ref_full.reused:
+            part.violation('monitor', f'{layout}: mailbox {box}: UID {uid} was acknowledged for message {now} although UID {high} had been acknowledged there before'
+                           + (f' (UID {uid} itself named message {was})' if was is not None else ''), case, signature='uid-reused')
         mcmds = None
         if kind == 'model':
             mcmds, keymap = model_commands(full, lines)
@@ -572,7 +598,7 @@ def run(ctx):
     configs = [('++', False), ('fs', False), ('++', True), ('fs', True)]
     jobs = []
     for k in range(nw):
-        jobs.append((ctx.seed * 1000 + 150 + k, ctx.budget(1, 12), ['model', 'full'] if k % 2 == 0 else ['full', 'model'], configs[k % 4:] + configs[:k % 4]))
+        jobs.append((ctx.seed * 1000 + 150 + k, ctx.budget(1, 12), [['model', 'full', 'newest'], ['full', 'newest', 'model'], ['newest', 'model', 'full'], ['full', 'model', 'newest']][k % 4], configs[k % 4:] + configs[:k % 4]))
     ctx.rep.extra['fault_enumeration'] = 'every filesystem-operation boundary of every history is a crash point (exhaustive per history)'
     ctx.pmap(worker, jobs)
 
